@@ -195,6 +195,8 @@ class EventListHeap(EventListInterface):
         if (self.contains(event)):
             self._event_list.remove((event.time, -event.priority,
                                      event._id, event))
+            # removal from an arbitrary position breaks the heap invariant
+            heapq.heapify(self._event_list)
             return True
         return False
 
